@@ -34,6 +34,7 @@ def run(ctx, chk):
     r4(ctx, chk)
     previous_locales_flag_rule(ctx, chk, "C13.R5")
     locale_language_pairing_rule(ctx, chk, "C13.R6")
+    locale_split_rule(ctx, chk, "C13.R7")
 
 
 def previous_locales_flag_rule(ctx, chk, rule):
@@ -591,3 +592,38 @@ def locale_language_pairing_rule(ctx, chk, rule):
 
 def _is_loop_var(f, name):
     return any(isinstance(n, ast.For) and any(isinstance(x, ast.Name) and x.id == name for x in ast.walk(n.target)) for n in iter_own_nodes(f.node))
+
+
+
+def locale_split_rule(ctx, chk, rule):
+    """locales=['sr-Latn-XK'] is taken apart by LOCALE_SPLIT_PATTERN into the language whose data module is loaded and the region; the
+    pattern is a module constant and the set of locale names is finite, so it is tried on every name of the index: the first piece must be
+    the language the name is listed under (script subtags stay with the language, numeric regions are regions), and a bare language name
+    must stay whole."""
+    import regex
+    from ..core.data import module_literal
+    from ..core.rx import module_regex
+    try:
+        pat, fl = module_regex(ctx.ix, "dateparser.languages.loader", "LOCALE_SPLIT_PATTERN")
+    except AnalysisError:
+        raise AnalysisError(rule, "loader.LOCALE_SPLIT_PATTERN is not a compile of a literal pattern")
+    if (fl or "").strip():
+        raise AnalysisError(rule, "LOCALE_SPLIT_PATTERN flags %s not modelled" % fl)
+    rx_ = regex.compile(pat)
+    lld = module_literal(ctx.repo, "dateparser/data/languages_info.py", "language_locale_dict")
+    bad = []
+    n = 0
+    for lang, locs in sorted(lld.items()):
+        n += 1
+        if rx_.split(lang) != [lang]:
+            bad.append("%s -> %s" % (lang, rx_.split(lang)))
+        for loc in locs:
+            n += 1
+            parts = rx_.split(loc)
+            if not (len(parts) == 2 and parts[0] == lang and parts[1] and loc == lang + "-" + parts[1]):
+                bad.append("%s -> %s (listed under %s)" % (loc, parts, lang))
+    chk.ob(rule, "LOCALE_SPLIT_PATTERN splits every one of the %d locale names of the index into its language and its region" % n, not bad,
+           "%d names come apart wrongly, e.g. %s: the wrong data module is imported (or none), or the locale is rejected as unknown" % (len(bad), bad[:4]),
+           key={"function": "dateparser.languages.loader:<module>", "construct": "LOCALE_SPLIT_PATTERN"}, file="dateparser/languages/loader.py",
+           function="LOCALE_SPLIT_PATTERN", line=None, text=pat)
+    chk.floor(rule, n, 400, "language and locale names split")
